@@ -617,7 +617,7 @@ func rulesC14(w *World, o *Out) {
 	}
 	// the stateful filter itself
 	if iom := w.MustFunc(o, "x/consensus/keeper/filters", "", "IsOldestMsgPerSender"); iom != nil {
-		n := 0
+		n, nKey := 0, 0
 		for _, b := range iom.Blocks {
 			for _, in := range b.Instrs {
 				if mu, ok := in.(*ssa.MapUpdate); ok {
@@ -625,9 +625,32 @@ func rulesC14(w *World, o *Out) {
 					okS := fl.DependsOnCall(mu.Key, isCallee("", "", "GetSenderAddress")) != nil
 					o.Check("C14.R3", "IsOldestMsgPerSender|records the sender", okS, w.Pos(mu.Pos()), "the look-up table must be keyed by the message's sender")
 				}
+				// one entry per sender: the key is the sender address itself, with nothing appended that would
+				// let two messages of one sender fall under different keys
+				var key ssa.Value
+				switch x := in.(type) {
+				case *ssa.MapUpdate:
+					key = x.Key
+				case *ssa.Lookup:
+					if _, isMap := x.X.Type().Underlying().(*types.Map); isMap {
+						key = x.Index
+					}
+				}
+				if key != nil {
+					exact := false
+					if c, ok := canon(key).(*ssa.Call); ok {
+						if cal, ok := CalleeOf(c.Common()); ok && cal.Name == "GetSenderAddress" {
+							exact = true
+						}
+					}
+					o.Check("C14.R3", "IsOldestMsgPerSender|the table key is the sender address alone"+ordSuffix(nKey), exact, w.Pos(in.Pos()),
+						"a key made of the sender and something else (the target contract) lets a younger message of the same sender pass while an older one is pending")
+					nKey++
+				}
 			}
 		}
 		o.Count("C14.R3 sender table updates", n, 1)
+		o.Count("C14.R3 sender table accesses", nKey, 2)
 		for _, r := range Returns(iom) {
 			if bv, isC := boolConst(r.Ret.Results[0]); isC && !bv {
 				okF := false
